@@ -272,7 +272,7 @@ func TestVerifC18(t *testing.T) {
 	rapid.Check(t, func(rt *rapid.T) {
 		c := genC18(rt)
 		v, nt, inc := runC18(c)
-		if inc {
+		if inc || (v != nil && transportNoise(v.Message)) {
 			col.Inconclusive()
 			return
 		}
